@@ -112,7 +112,7 @@ Definition dc_lists : mlists F :=
      L_Q := dc_Q;
      L_P := p_P pt; L_PC := p_PC pt; L_PP := p_PP pt;
      L_V := p_V pt; L_VC := p_VC pt; L_VP := p_VP pt;
-     L_T := p_T pt; L_t0 := p_t0 pt;
+     L_T := T_of oc pt; L_t0 := t0_of oc pt;
      L_cg := cg; L_ig := ig;
      L_xk := map (fun ki => x_start (fst ki) (snd ki)) steps;
      L_xqk := dc_xqk;
@@ -126,11 +126,11 @@ Definition roots_rows_at (L : mlists F) (k i j : nat) : list (row F) :=
 
 Definition rows_dc : list (row F) :=
   let L := dc_lists in
-  let Tl := T_local (m_grid me) N (p_T pt) (p_Tloc pt) in
-  let t0l := p_t0 pt :: p_t0loc pt in
-  bounds_finalize (m_grid me) cg (p_t0 pt) (p_T pt)
+  let Tl := T_local (m_grid me) N (T_of oc pt) (p_Tloc pt) in
+  let t0l := t0_of oc pt :: p_t0loc pt in
+  bounds_finalize (m_grid me) cg (t0_of oc pt) (T_of oc pt)
   ++ flat_map (fun k =>
-       bounds_T (m_grid me) N (horizon_is_var (o_T oc)) (p_T pt) Tl t0l k
+       bounds_T (m_grid me) N (horizon_is_var (o_T oc)) (T_of oc pt) Tl t0l k
        ++ flat_map (fun i =>
             flat_map (fun j => colloc_rows k i j ++ roots_rows_at L k i j) (seq 0 d)
             ++ cont_rows k i
